@@ -3,14 +3,18 @@
 Domain : generated package trees with classes holding plain and qualified (multi-part) references
          (single 'extends', list 'uses'), a postponement schedule per reference (the registered RREL
          provider is wrapped and returns Postponed on the first k calls), wrapper objects whose
-         single contained object shares their start position or their whole span; loads from strings
-         and files; textx_tools_support=True.
-Oracle : _pos_crossref_list: one entry per resolved reference; sorted by ref_pos_start;
-         [ref_pos_start, ref_pos_end) is exactly the reference text written by the generator;
-         def_file_name / def_pos_start / def_pos_end are the target's model file and span.
-         _pos_rule_dict: every key is the span of its value; for a span shared by nested objects the
-         innermost object is stored; iteration lists a span before every different span containing it.
+         contained objects share their start position or their whole span (two and three levels);
+         single-file loads from strings and files, and two-file models (the main file imports a
+         library file whose classes it references; the library has references - and postponements -
+         of its own); textx_tools_support=True.
+Oracle : per model file: _pos_crossref_list has one entry per resolved reference of that file; it is
+         sorted by ref_pos_start; [ref_pos_start, ref_pos_end) is exactly the reference text written
+         by the generator; def_file_name / def_pos_start / def_pos_end are the target's model file
+         and span.  _pos_rule_dict: every key is the span of its value; for a span shared by nested
+         objects the innermost object is stored; iteration lists a span before every different span
+         containing it.
 """
+import copy
 import os
 import shutil
 import tempfile
@@ -24,23 +28,25 @@ ID = "C34"
 LEVEL = "exploration"
 CASES = {"quick": 3000, "thorough": 150000}
 RULE = ("generated package trees (depth<=3) with classes (extends / uses references written as absolute dotted names), "
-        "wrappers sharing start or whole span with their inner object, a postponement count 0-2 per reference, string / file "
-        "load. non-trivial: >=1 qualified or postponed reference and >=1 pair of nested objects with equal start; distinct by "
-        "canonical JSON")
+        "wrappers and boxes sharing start or whole span with their inner objects (2 and 3 levels), a postponement count 0-2 "
+        "per reference, string / file load, 35% two-file models (main imports a library). non-trivial: >=1 qualified or "
+        "postponed reference and >=1 pair of nested objects with equal start; distinct by canonical JSON")
 ASSUMPTIONS = [
     "the reference text is the dotted name as written (no blanks inside)",
-    "postponement schedules keep at least one reference resolving per round (the provider's counters guarantee progress)",
+    "postponement schedules keep at least one reference resolving per round (counts are lowered until that holds)",
 ]
-LEVEL_TEXT = ("Generated models, schedules and span-sharing shapes; the editor-support tables are compared with offsets "
-              "recorded by the text writer.")
+LEVEL_TEXT = ("Generated models, schedules and span-sharing shapes; the editor-support tables of every loaded file are "
+              "compared with offsets recorded by the text writer.")
 LEVEL_NOTE = "Trusts the writer's recorded token offsets and object spans."
 TECHNIQUE = "property-based testing (Hypothesis) with a postponing provider, against recorded offsets"
 DESIGN_REF = "DESIGN.md section 4 C34"
 
 GRAMMAR = r"""
-Model: packages*=Package;
-Package: 'package' name=ID '{' (packages+=Package | classes+=Cls | wraps+=Wrap)* '}';
+Model: imports*=Import packages*=Package;
+Import: 'import' importURI=STRING;
+Package: 'package' name=ID '{' (packages+=Package | classes+=Cls | boxes+=Box)* '}';
 Cls: 'class' name=ID ('extends' base=[Cls:FQN])? ('uses' uses+=[Cls:FQN][','])?;
+Box: wrap=Wrap mark?='m';
 Wrap: inner=Inner suffix?='w';
 Inner: 'inner' name=ID;
 FQN: ID('.'ID)*;
@@ -49,10 +55,10 @@ Comment: /\/\/.*?$/ | /\/\*(.|\n)*?\*\//;
 
 
 def _pkg(depth):
-    cls = st.fixed_dictionaries({"k": st.just("Cls"), "base": st.one_of(st.none(), st.tuples(st.integers(0, 20), st.integers(0, 2)).map(list)),
-                                 "uses": st.lists(st.tuples(st.integers(0, 20), st.integers(0, 2)).map(list), max_size=3)})
-    wrap = st.fixed_dictionaries({"k": st.just("Wrap"), "suffix": st.booleans()})
-    kid = st.one_of(cls, cls, wrap)
+    ref = st.tuples(st.integers(0, 20), st.integers(0, 2)).map(list)
+    cls = st.fixed_dictionaries({"k": st.just("Cls"), "base": st.one_of(st.none(), ref), "uses": st.lists(ref, max_size=3)})
+    box = st.fixed_dictionaries({"k": st.just("Box"), "suffix": st.booleans(), "mark": st.booleans()})
+    kid = st.one_of(cls, cls, box)
     if depth > 0:
         kid = st.one_of(kid, kid, _pkg(depth - 1))
     return st.fixed_dictionaries({"k": st.just("Package"), "kids": st.lists(kid, min_size=1, max_size=4)})
@@ -60,16 +66,18 @@ def _pkg(depth):
 
 @st.composite
 def cases(draw):
+    lib = draw(st.lists(_pkg(1), min_size=1, max_size=2)) if draw(st.integers(0, 19)) < 7 else None
     return {"packages": draw(st.lists(_pkg(2), min_size=1, max_size=2)), "layout": draw(layouts()),
-            "from_file": draw(st.booleans())}
+            "from_file": draw(st.booleans()), "lib": lib, "lib_layout": draw(layouts(max_size=6))}
 
 
 def strategy(tier):
     return cases()
 
 
-def build(case):
-    # first pass: names and absolute paths of the classes
+def build_file(packages, layout, prefix, fileno, extern, header=""):
+    """returns (text, refs, spans, shared, classes).  refs: dicts with start/end/text/k/target=(file, id);
+    spans: id -> (kind, start, end); shared: list of chains [outer id, ..., innermost id] of nested objects"""
     classes = []
     counter = [0]
 
@@ -77,84 +85,89 @@ def build(case):
         counter[0] += 1
         e["_id"] = counter[0]
         if e["k"] == "Package":
-            e["_name"] = f"p{counter[0]}"
+            e["_name"] = f"{prefix}p{counter[0]}"
             for k in e["kids"]:
                 names(k, path + [e["_name"]])
         elif e["k"] == "Cls":
-            e["_name"] = f"c{counter[0]}"
+            e["_name"] = f"{prefix}c{counter[0]}"
             e["_path"] = ".".join(path + [e["_name"]])
+            e["_file"] = fileno
             classes.append(e)
         else:
-            e["_name"] = f"i{counter[0]}"
+            e["_name"] = f"{prefix}i{counter[0]}"
 
-    import copy
-
-    pk = copy.deepcopy(case["packages"])
+    pk = copy.deepcopy(packages)
     for p in pk:
         names(p, [])
-    w = Writer(case["layout"], GAPS_COMMENT)
-    refs = []  # {"start","end","target": cls id, "k": postpone count}
-    spans = {}  # id -> (kind, start, end)
-    inner_of = {}
+    pool = classes + list(extern)
+    w = Writer(layout, GAPS_COMMENT)
+    if header:
+        w.tok("import")
+        w.tok(header)
+    refs, spans, shared = [], {}, []
+
+    def ref(spec):
+        t = pool[spec[0] % len(pool)]
+        s = w.tok(t["_path"])
+        refs.append({"start": s, "end": s + len(t["_path"]), "target": (t["_file"], t["_id"]), "k": spec[1], "text": t["_path"]})
+
+    def emit_wrap(e, key):
+        w.begin(key)
+        ikey = ("inner", key)
+        w.begin(ikey)
+        w.tok("inner")
+        w.tok(e["_name"])
+        w.end(ikey)
+        spans[ikey] = ("Inner",) + tuple(w.spans[ikey])
+        if e["suffix"]:
+            w.tok("w")
+        w.end(key)
+        spans[key] = ("Wrap",) + tuple(w.spans[key])
+        return ikey
 
     def emit(e):
         key = e["_id"]
-        w.begin(key)
         if e["k"] == "Package":
+            w.begin(key)
             w.tok("package")
             w.tok(e["_name"])
             w.tok("{")
             for k in e["kids"]:
                 emit(k)
             w.tok("}")
+            w.end(key)
+            spans[key] = ("Package",) + tuple(w.spans[key])
         elif e["k"] == "Cls":
+            w.begin(key)
             w.tok("class")
             w.tok(e["_name"])
-            if e["base"] is not None and classes:
-                t = classes[e["base"][0] % len(classes)]
+            if e["base"] is not None and pool:
                 w.tok("extends")
-                s = w.tok(t["_path"])
-                refs.append({"start": s, "end": s + len(t["_path"]), "target": t["_id"], "k": e["base"][1], "text": t["_path"]})
-            us = [u for u in e["uses"]] if classes else []
-            if us:
+                ref(e["base"])
+            if e["uses"] and pool:
                 w.tok("uses")
-                for j, u in enumerate(us):
+                for j, u in enumerate(e["uses"]):
                     if j:
                         w.tok(",")
-                    t = classes[u[0] % len(classes)]
-                    s = w.tok(t["_path"])
-                    refs.append({"start": s, "end": s + len(t["_path"]), "target": t["_id"], "k": u[1], "text": t["_path"]})
+                    ref(u)
+            w.end(key)
+            spans[key] = ("Cls",) + tuple(w.spans[key])
         else:
-            ikey = ("inner", key)
-            w.begin(ikey)
-            w.tok("inner")
-            w.tok(e["_name"])
-            w.end(ikey)
-            spans[ikey] = ("Inner",) + tuple(w.spans[ikey])
-            inner_of[key] = ikey
-            if e["suffix"]:
-                w.tok("w")
-        w.end(key)
-        spans[key] = (e["k"],) + tuple(w.spans[key])
+            wkey = ("wrap", key)
+            w.begin(key)
+            ikey = emit_wrap(e, wkey)
+            if e["mark"]:
+                w.tok("m")
+            w.end(key)
+            spans[key] = ("Box",) + tuple(w.spans[key])
+            shared.append([key, wkey, ikey])
 
     for p in pk:
         emit(p)
-    return w.text(), refs, spans, inner_of
+    return w.text(), refs, spans, shared, classes
 
 
-def evaluate(case):
-    from textx import get_children, metamodel_from_str
-    from textx.exceptions import TextXError
-    from textx.scoping import Postponed
-    from textx.scoping.rrel import create_rrel_scope_provider
-
-    out = Outcome()
-    text, refs, spans, inner_of = build(case)
-    mm = metamodel_from_str(GRAMMAR, textx_tools_support=True)
-    inner = create_rrel_scope_provider("packages*.classes")
-    calls = {}
-    by_start = {r["start"]: r for r in refs}
-    # keep every round productive: never postpone all pending references of a round
+def normalise(refs):
     def productive():
         pend = [r["k"] for r in refs]
         rnd = 0
@@ -170,49 +183,18 @@ def evaluate(case):
         m = max(refs, key=lambda r: r["k"])
         m["k"] -= 1
 
-    def provider(obj, attr, obj_ref):
-        r = by_start.get(obj_ref.position)
-        c = calls.get(obj_ref.position, 0) + 1
-        calls[obj_ref.position] = c
-        if r is not None and c <= r["k"]:
-            return Postponed()
-        return inner(obj, attr, obj_ref)
 
-    mm.register_scope_providers({"Cls.base": provider, "Cls.uses": provider})
-    tmp = fname = None
-    try:
-        try:
-            if case["from_file"]:
-                tmp = tempfile.mkdtemp(prefix="vt-c34-")
-                fname = os.path.join(tmp, "m.model")
-                with open(fname, "w", newline="") as f:
-                    f.write(text)
-                model = mm.model_from_file(fname)
-            else:
-                model = mm.model_from_str(text)
-        except TextXError as e:
-            return out.add("load_failed", f"{text!r}: {e}")
-    finally:
-        if tmp:
-            shutil.rmtree(tmp, ignore_errors=True)
-    ctx = f"text={text!r} schedule={[(r['text'], r['k']) for r in refs]}"
-    qualified = any("." in r["text"] for r in refs)
-    postponed = any(r["k"] for r in refs)
-    shared_start = bool(inner_of)
-    out.nontrivial = (qualified or postponed) and shared_start
-    out.cls("qualified" if qualified else "plain_names", "postponed" if postponed else "no_postponement",
-            "file" if case["from_file"] else "string")
-    out.sample = {"text": text, "schedule": [(r["text"], r["k"]) for r in refs]}
-    objs = {(type(o).__name__, o._tx_position, o._tx_position_end): o for o in [model] + get_children(lambda x: True, model)}
-    # ---- cross references
+def verify(out, ctx, model, text, refs, spans, shared, files, fileno, all_spans, postponed):
+    by_start = {r["start"]: r for r in refs}
     lst = list(model._pos_crossref_list)
     starts = [e.ref_pos_start for e in lst]
+    role = "main" if fileno == 0 else "imported"
     if starts != sorted(starts):
-        out.add("crossref_list/not_sorted" + ("/postponed" if postponed else ""), ctx + f": starts {starts}")
+        out.add(f"crossref_list/not_sorted/{role}" + ("/postponed" if postponed else ""), ctx + f": file {fileno}: starts {starts}")
     if sorted(starts) != sorted(r["start"] for r in refs):
         dup = len(starts) != len(set(starts))
         out.add("crossref_list/" + ("duplicate_entries" if dup else "entries_missing_or_extra"),
-                ctx + f": starts {sorted(starts)} expected {sorted(r['start'] for r in refs)}")
+                ctx + f": file {fileno}: starts {sorted(starts)} expected {sorted(r['start'] for r in refs)}")
     for e in lst:
         r = by_start.get(e.ref_pos_start)
         if r is None:
@@ -221,13 +203,15 @@ def evaluate(case):
             out.add("crossref_entry/ref_pos_end/" + ("qualified" if "." in r["text"] else "plain"),
                     ctx + f": reference {r['text']!r} at {r['start']}: end {e.ref_pos_end}, expected {r['end']} "
                     f"(slice {text[e.ref_pos_start:e.ref_pos_end]!r})")
-        tk, ts, te = spans[r["target"]]
+        tfile, tid = r["target"]
+        tk, ts, te = all_spans[tfile][tid]
         if (e.def_pos_start, e.def_pos_end) != (ts, te):
             out.add("crossref_entry/definition_span", ctx + f": {r['text']!r}: def span {(e.def_pos_start, e.def_pos_end)} "
                     f"expected {(ts, te)}")
-        if e.def_file_name != fname:
-            out.add("crossref_entry/definition_file", ctx + f": {e.def_file_name!r} expected {fname!r}")
-    # ---- rule dict
+        want_file = files[tfile]
+        got_file = os.path.realpath(e.def_file_name) if e.def_file_name else None
+        if got_file != want_file:
+            out.add("crossref_entry/definition_file", ctx + f": {e.def_file_name!r} expected {want_file!r}")
     rd = model._pos_rule_dict
     keys = list(rd.keys())
     for kpos, o in rd.items():
@@ -235,22 +219,95 @@ def evaluate(case):
             out.add("rule_dict/key_is_not_span_of_value", ctx + f": key {kpos} -> {type(o).__name__} "
                     f"[{o._tx_position},{o._tx_position_end})")
     exp_spans = {(s, e) for (_, s, e) in spans.values()}
-    if len(spans) and not exp_spans <= set(map(tuple, keys)):
+    if spans and not exp_spans <= set(map(tuple, keys)):
         out.add("rule_dict/span_missing", ctx + f": missing {sorted(exp_spans - set(map(tuple, keys)))[:3]}")
-    for wkey, ikey in inner_of.items():
-        _, ws, we = spans[wkey]
-        _, is_, ie = spans[ikey]
-        if (ws, we) == (is_, ie):
-            o = rd.get((ws, we))
-            if o is not None and type(o).__name__ != "Inner":
-                out.add("rule_dict/shared_span_holds_outer_object", ctx + f": span {(ws, we)} holds a {type(o).__name__}")
+    for chain in shared:
+        # chain = [Box, Wrap, Inner] (outermost first); for every span shared by several of them the innermost wins
+        by_span = {}
+        for k in chain:
+            by_span.setdefault(spans[k][1:], []).append(spans[k][0])
+        for sp, kinds_ in by_span.items():
+            if len(kinds_) >= 2:
+                o = rd.get(sp)
+                if o is not None and type(o).__name__ != kinds_[-1]:
+                    out.add(f"rule_dict/shared_span_holds_outer_object/{len(kinds_)}_levels",
+                            ctx + f": span {sp} shared by {kinds_} holds a {type(o).__name__}")
     for i, a in enumerate(keys):
-        for b in keys[i + 1:]:
-            # b comes after a: b must not be strictly contained in a ... i.e. a must not contain b
-            if tuple(a) != tuple(b) and a[0] <= b[0] and b[1] <= a[1]:
-                out.add("rule_dict/containing_span_listed_first", ctx + f": {tuple(a)} is listed before {tuple(b)}")
-                break
-        else:
-            continue
-        break
-    return out
+        hit = next((b for b in keys[i + 1:] if tuple(a) != tuple(b) and a[0] <= b[0] and b[1] <= a[1]), None)
+        if hit is not None:
+            out.add("rule_dict/containing_span_listed_first", ctx + f": {tuple(a)} is listed before {tuple(hit)}")
+            break
+
+
+def evaluate(case):
+    from textx import metamodel_from_str
+    from textx.exceptions import TextXError
+    from textx.scoping import Postponed
+    from textx.scoping.rrel import create_rrel_scope_provider
+
+    out = Outcome()
+    multi = case["lib"] is not None
+    lib_text = lib_refs = lib_spans = lib_shared = None
+    lib_classes = []
+    if multi:
+        lib_text, lib_refs, lib_spans, lib_shared, lib_classes = build_file(case["lib"], case["lib_layout"], "L", 1, [])
+    text, refs, spans, shared, _ = build_file(case["packages"], case["layout"], "", 0, lib_classes,
+                                             header='"lib.m"' if multi else "")
+    all_refs = refs + (lib_refs or [])
+    normalise(all_refs)
+    mm = metamodel_from_str(GRAMMAR, textx_tools_support=True)
+    inner = create_rrel_scope_provider("+m:packages*.classes")
+    calls = {}
+
+    def provider(obj, attr, obj_ref):
+        from textx import get_model
+
+        fn = get_model(obj)._tx_filename
+        is_lib = bool(fn) and os.path.basename(fn) == "lib.m"
+        table = lib_refs if is_lib else refs
+        r = next((x for x in table if x["start"] == obj_ref.position), None)
+        key = (is_lib, obj_ref.position)
+        c = calls.get(key, 0) + 1
+        calls[key] = c
+        if r is not None and c <= r["k"]:
+            return Postponed()
+        return inner(obj, attr, obj_ref)
+
+    mm.register_scope_providers({"Cls.base": provider, "Cls.uses": provider, "Import.importURI": inner})
+    tmp = None
+    files = {0: None, 1: None}
+    try:
+        try:
+            if case["from_file"] or multi:
+                tmp = os.path.realpath(tempfile.mkdtemp(prefix="vt-c34-"))
+                files[0] = os.path.join(tmp, "m.model")
+                with open(files[0], "w", newline="") as f:
+                    f.write(text)
+                if multi:
+                    files[1] = os.path.join(tmp, "lib.m")
+                    with open(files[1], "w", newline="") as f:
+                        f.write(lib_text)
+                model = mm.model_from_file(files[0])
+            else:
+                model = mm.model_from_str(text)
+        except TextXError as e:
+            return out.add("load_failed", f"{text!r} lib={lib_text!r}: {e}")
+        ctx = f"text={text!r} lib={lib_text!r} schedule={[(r['text'], r['k']) for r in all_refs]}"
+        qualified = any("." in r["text"] for r in all_refs)
+        postponed = any(r["k"] for r in all_refs)
+        out.nontrivial = (qualified or postponed) and bool(shared or lib_shared)
+        out.cls("qualified" if qualified else "plain_names", "postponed" if postponed else "no_postponement",
+                "two_files" if multi else ("file" if case["from_file"] else "string"))
+        out.sample = {"text": text, "lib": lib_text, "schedule": [(r["text"], r["k"]) for r in all_refs]}
+        all_spans = {0: spans, 1: lib_spans}
+        verify(out, ctx, model, text, refs, spans, shared, files, 0, all_spans, postponed)
+        if multi:
+            libm = [m for m in model._tx_model_repository.all_models if m is not model]
+            if len(libm) != 1:
+                out.add("library_model_missing", ctx)
+            else:
+                verify(out, ctx, libm[0], lib_text, lib_refs, lib_spans, lib_shared, files, 1, all_spans, postponed)
+        return out
+    finally:
+        if tmp:
+            shutil.rmtree(tmp, ignore_errors=True)
